@@ -331,7 +331,12 @@ theorem search_reader_stdout_no_nul (cfg : Searcher.Config) (m : Searcher.Matche
   unfold binaryByte at hlt hd hp ⊢
   unfold Searcher.searchReader
   split
-  · exact multiline_stdout_no_nul cfg m σ rdr.data det hd path hp
+  · split
+    · -- the heap limit stops the multi-line read: no callback at all
+      have : (({ core := Searcher.Core.new cfg true, result := Searcher.Res.err } : Searcher.Run).events.filterMap toEv) = [] := rfl
+      rw [this]
+      simp [stdRun, BinaryOut.finish, feed, render]
+    · exact multiline_stdout_no_nul cfg m σ rdr.data det hd path hp
   · have hbin : (Searcher.lineBufferConfig cfg heapLimit cap).binary = cfg.binary.toLB := by
       unfold Searcher.lineBufferConfig
       cases heapLimit with
